@@ -346,6 +346,8 @@ fn renderer_case(c: &RCase) -> Result<(bool, bool), Failure> {
 		_track: kira::track::TrackHandle,
 		live_from: usize,
 		last: Option<f64>,
+		/// internal buffers processed since the modulator was removed
+		held: usize,
 	}
 	let mut readers: Vec<Reader> = vec![];
 	let mut callback_no = 0usize;
@@ -436,6 +438,7 @@ fn renderer_case(c: &RCase) -> Result<(bool, bool), Failure> {
 					_track: track,
 					live_from: callback_no,
 					last: None,
+					held: 0,
 				});
 			}
 			Op::TweenerSet(slot, to, dur) => {
@@ -579,6 +582,12 @@ fn renderer_case(c: &RCase) -> Result<(bool, bool), Failure> {
 								// the modulator is gone: the parameter holds its last value
 								if let Some(last) = r.last {
 									ensure!(rec.param == last, "parameter-holds-after-modulator-removed", "op #{oi}, internal buffer {j}: parameter of reader {ri} = {} after modulator {} was removed, it held {last} before; case {c:?}", rec.param, r.slot);
+									// ... over the whole buffer, not only at its end: from the second buffer after
+									// the removal on nothing is left to interpolate from
+									if r.held >= 1 {
+										ensure!(rec.prev_param == last, "parameter-holds-after-modulator-removed", "op #{oi}, internal buffer {j} ({} buffers after modulator {} was removed): the parameter of reader {ri} still sweeps from {} to {last} inside every buffer; case {c:?}", r.held, r.slot, rec.prev_param);
+									}
+									r.held += 1;
 								}
 							}
 						}
@@ -866,7 +875,7 @@ impl Property for C17 {
 		"C17"
 	}
 	fn rule(&self) -> &'static str {
-		"two kinds of cases. (1) One LFO built through LfoBuilder and driven directly: four waveforms, frequencies 0..1e5 Hz, amplitudes and offsets of either sign, starting phases in radians, and a history of update steps interleaved with set_phase / set_waveform / set_frequency / set_amplitude / set_offset (with tweens); after every update the value must lie inside offset +- |amplitude| and equal offset + amplitude x shape(frac(phase/2pi + sum f dt)) from an independent description of the documented shapes (1e-6, not tested within 1e-6 of a waveform jump). (2) Through the renderer: tweeners, LFOs (optionally with their offset linked to another modulator) and probe modulators are added and dropped while probe effects whose parameter is linked to a modulator through a generated mapping (ranges, inverted ranges, all easings) record the parameter in every internal buffer; the parameter must equal the mapping of the modulator's value of the same buffer, hold its last value once the modulator is removed, and every probe modulator must be updated exactly once per internal buffer with dt = buffer / rate. One renderer case in eight also plays a DC sound whose volume is linked to a tweener and whose start is delayed by 2.5 .. 6.5 internal buffers: from its fifth audible frame on the output must be the mapped gain (1e-4), nothing ramps in from the default. Every other renderer case also creates a tweener and a DC sound whose volume is linked to it at one of six moments of a callback (before it; from on_start_processing or process of a custom sound on a sub-track or on the main track; between Renderer::on_start_processing and Renderer::process), on the main track, the agent's track or another track, with three internal buffers per callback: from the second internal buffer in which the sound is audible its level must be the mapped gain - a sound never gets ahead of the modulator created before it. Non-trivial = a non-sine waveform or a non-identity mapping, and (renderer cases) a modulator drop; distinct = distinct decoded choices. The tweener's own curve is checked in C06."
+		"two kinds of cases. (1) One LFO built through LfoBuilder and driven directly: four waveforms, frequencies 0..1e5 Hz, amplitudes and offsets of either sign, starting phases in radians, and a history of update steps interleaved with set_phase / set_waveform / set_frequency / set_amplitude / set_offset (with tweens); after every update the value must lie inside offset +- |amplitude| and equal offset + amplitude x shape(frac(phase/2pi + sum f dt)) from an independent description of the documented shapes (1e-6, not tested within 1e-6 of a waveform jump). (2) Through the renderer: tweeners, LFOs (optionally with their offset linked to another modulator) and probe modulators are added and dropped while probe effects whose parameter is linked to a modulator through a generated mapping (ranges, inverted ranges, all easings) record the parameter in every internal buffer; the parameter must equal the mapping of the modulator's value of the same buffer, hold its last value once the modulator is removed (at the end of every internal buffer and, from the second buffer after the removal, over the whole buffer), and every probe modulator must be updated exactly once per internal buffer with dt = buffer / rate. One renderer case in eight also plays a DC sound whose volume is linked to a tweener and whose start is delayed by 2.5 .. 6.5 internal buffers: from its fifth audible frame on the output must be the mapped gain (1e-4), nothing ramps in from the default. Every other renderer case also creates a tweener and a DC sound whose volume is linked to it at one of six moments of a callback (before it; from on_start_processing or process of a custom sound on a sub-track or on the main track; between Renderer::on_start_processing and Renderer::process), on the main track, the agent's track or another track, with three internal buffers per callback: from the second internal buffer in which the sound is audible its level must be the mapped gain - a sound never gets ahead of the modulator created before it. Non-trivial = a non-sine waveform or a non-identity mapping, and (renderer cases) a modulator drop; distinct = distinct decoded choices. The tweener's own curve is checked in C06."
 	}
 	fn assumptions(&self) -> Vec<String> {
 		vec![
